@@ -26,6 +26,22 @@ def register_memories(ctx):
             pass
 
 
+M_GEOMETRIES = {"M1": [(64, 256), (128, 192), (4096, 320)], "M2": [(1000, 96), (2000, 160), (520, 64)]}
+
+
+def describe_memories(ctx, rng):
+    """the cluster description of this case: the memories M1 / M2 with one of several geometries, built the way the configuration parser
+    builds them (SnaxMemory.from_config) and registered under the same names as before.  Returns what was DESCRIBED: name -> (start, size)."""
+    from snaxc.tools.configs import SnaxMemoryConfig
+    from snaxc.util.snax_memory import SnaxMemory
+    desc = {}
+    for name, geos in M_GEOMETRIES.items():
+        start, size = rng.choice(geos)
+        ctx.register_memory(SnaxMemory.from_config(SnaxMemoryConfig(name=name, start=start, size=size)))
+        desc[name] = (start, size)
+    return desc
+
+
 def gen_placement(rng):
     mems = rng.sample(["Test", "M1", "M2", "L1"], rng.choice([1, 1, 2]))
     nb = rng.randint(2, 6)
@@ -116,6 +132,7 @@ def run(pid: str, tier: str, seed: int, selftest=False, replay=None) -> int:
         except Exception as e:
             raise MachineryError(f"generator produced invalid input {name}: {e}\n{text}")
         allocs = [o for o in src.walk() if isinstance(o, snax.Alloc)]
+        desc = describe_memories(ctx, rng)
         for mode in ("static", "minimalloc", "auto"):
             m = src.clone()
             try:
@@ -137,9 +154,11 @@ def run(pid: str, tier: str, seed: int, selftest=False, replay=None) -> int:
                 continue
             places = []
             for a, addr in zip(allocs, addrs):
-                mem = ctx.get_memory(a.memory_space.data)
+                mname = a.memory_space.data
+                mem = ctx.get_memory(mname)
+                mstart, mcap = desc.get(mname, (mem.start, mem.capacity))       # what was described, not what the object now says
                 places.append({"addr": addr, "size": a.size.op.value.value.data, "align": a.alignment.value.data if a.alignment else 0,
-                               "mem": a.memory_space.data, "start": mem.start, "capacity": mem.capacity})
+                               "mem": mname, "start": mstart, "capacity": mcap})
             img = image_of(funcs_of(src)["f"])
             cases.append({"name": f"{name}|{mode}", "A": img, "B": img, "argdom": [[0, 1, 2], [0, 1]], "opqdom": [[0]],
                           "extra": {"places": places}, "text": text, "after": str(funcs_of(m)["f"])[:3000], "places": places})
